@@ -1178,6 +1178,34 @@ def _install(M):
     _elementwise("numpy.log", lambda x: V.ufun("log", x))
     _elementwise("numpy.sign", lambda x: ite(compare(">", x, 0), 1, ite(compare("<", x, 0), -1, 0)))
 
+    @reg("numpy.array_equal")
+    def _array_equal(ex, a, k, l):
+        """numpy.array_equal(x, y): same shape and all cells equal (a quantified formula for symbolic sizes)"""
+        x, y = a[0], a[1]
+        if not (isinstance(x, SymArr) and isinstance(y, SymArr)):
+            raise Unsupported("numpy.array_equal of %r, %r @%s" % (x, y, l))
+        if x.rank != y.rank:
+            return False
+        shp = band(*[compare("==", p_, q_) for p_, q_ in zip(x.shape, y.shape)])
+        if all(isinstance(n_, int) for n_ in x.shape) and all(isinstance(n_, int) for n_ in y.shape):
+            if tuple(x.shape) != tuple(y.shape):
+                return False
+            import itertools
+            if int(numpy_size(x.shape)) <= 64:
+                return band(*[ex.compare_op(__import__("ast").Eq(), x.get(list(i)), y.get(list(i)))
+                              for i in itertools.product(*[range(n_) for n_ in x.shape])])
+        xs = [fresh("q", z3.IntSort()) for _ in x.shape]
+        rng = z3.And(*[z3.And(0 <= v_, v_ < V.z3int(n_)) for v_, n_ in zip(xs, x.shape)])
+        cx_, cy_ = Cx.of(x.get(xs)), Cx.of(y.get(xs))
+        eq = z3.And(V.z3real(cx_.re) == V.z3real(cy_.re), V.z3real(cx_.im) == V.z3real(cy_.im))
+        return band(shp, V.canon_quant(xs, z3.Implies(rng, eq)))
+
+    def numpy_size(shape):
+        r = 1
+        for n_ in shape:
+            r *= n_
+        return r
+
     @reg("numpy.prod")
     def _nprod(ex, a, k, l):
         """product of the elements of a (small, concretely shaped) one-dimensional array or sequence"""
